@@ -412,7 +412,7 @@ func runEntryJobs(jobs []entryJob, workers int) map[int]entryResult {
 							fmt.Sscanf(line, "START %d", &started)
 							limit = 30 * time.Second
 							if byID[started].Slow {
-								limit = 180 * time.Second
+								limit = 90 * time.Second
 							}
 						} else if strings.HasPrefix(line, "RESULT ") {
 							var r entryResult
@@ -536,15 +536,22 @@ func c07Inputs(c *Check) map[string][][]byte {
 	}
 	in["machine-cbe"] = machine
 	// deep nesting
-	for _, n := range []int{999, 1001, 100000, 3000000} {
+	deepCBE, deepCTE := []int{999, 1001, 200000}, []int{999, 1001, 20000}
+	if thorough {
+		deepCBE, deepCTE = []int{999, 1001, 100000, 3000000}, []int{999, 1001, 100000, 1000000}
+	}
+	for _, n := range deepCBE {
 		for _, open := range []byte{0x9a, 0x99, 0x98} {
 			in["deep-cbe"] = append(in["deep-cbe"], append([]byte{0x81, 0x00}, bytes.Repeat([]byte{open}, n)...))
 		}
 	}
-	for _, n := range []int{999, 1001, 100000, 3000000} {
+	for _, n := range deepCTE {
 		for _, open := range []string{"[", "{1=", "(", "@(", "/*"} {
-			if n > 100000 && open != "[" && open != "/*" {
+			if n > 20000 && open != "[" && open != "/*" {
 				continue
+			}
+			if n > 1001 && open == "@(" {
+				continue // unclosed edges cost quadratic time (C08 finding); here only "does it return"
 			}
 			in["deep-cte"] = append(in["deep-cte"], []byte("c0\n"+strings.Repeat(open, n)))
 		}
@@ -576,8 +583,12 @@ func c07Inputs(c *Check) map[string][][]byte {
 		in["random"] = append(in["random"], b)
 	}
 	in["wrong-format"] = [][]byte{[]byte("c0\n\x81\x00\x01"), append([]byte{0x81, 0x00}, []byte("c0\n1")...), []byte("{\"json\": 1}"), []byte("\xef\xbb\xbfc0\n1"), []byte("c0\r\n1")}
-	_, many := scalingDoc("cte/small-ints", 300000)
-	_, manyB := scalingDoc("cbe/small-ints", 1500000)
+	manyN := 60000
+	if thorough {
+		manyN = 300000
+	}
+	_, many := scalingDoc("cte/small-ints", manyN)
+	_, manyB := scalingDoc("cbe/small-ints", 5*manyN)
 	in["many-tokens"] = [][]byte{many, manyB}
 	return in
 }
@@ -640,6 +651,20 @@ func checkC07Entries(c *Check) {
 				j := entryJob{ID: id, Op: ec.Op, Entry: ec.Entry, With: ec.With, Doc: hex.EncodeToString(d), Class: ec.Input, Slow: slowClass[ec.Input]}
 				jobs = append(jobs, j)
 				meta[id] = j
+			}
+		}
+	}
+	if only := os.Getenv("VERIF_C07_ONLY"); only != "" { // debugging aid: one operation kind only
+		var keep []entryJob
+		for _, j := range jobs {
+			if j.Op == only {
+				keep = append(keep, j)
+			}
+		}
+		jobs = keep
+		for id, j := range meta {
+			if j.Op != only {
+				delete(meta, id)
 			}
 		}
 	}
